@@ -75,6 +75,9 @@ fn main() {
             let (status, info) = worker::run_guarded(entry, &payload, props::entries::dispatch);
             println!("{} {}", status, info);
         }
+        "c18-chrono" => {
+            props::c18::chrono_child();
+        }
         "digest-server" => {
             engine::quiet_panics();
             props::c08::digest_server();
